@@ -165,7 +165,7 @@ _LagrangeHalfCPolynomialSubMul:
 	vsubpd	%ymm5,%ymm4,%ymm2
 	vaddpd	%ymm7,%ymm6,%ymm3
 	vsubpd	%ymm2,%ymm8,%ymm8
-	vsubpd	%ymm3,%ymm8,%ymm9
+	vsubpd	%ymm3,%ymm9,%ymm9
 	vmovupd	%ymm8,(%r8)
 	vmovupd	%ymm9,(%r9)
 	/* end of loop */
